@@ -1,8 +1,8 @@
 #!/usr/bin/env python3
 """Assemble /verif/seeded/<ID>-<X>/ from a sub-agent's output directory and the confirmation log (one-off helper)."""
 import json, os, re, shutil, subprocess, sys
-OUT = "/tmp/seed/out"
-LOGS = ["/tmp/seed/confirm_batch1.log", "/tmp/seed/confirm_batch2.log"]
+OUTS = {"A": "/tmp/seed/out", "B": "/tmp/seed/out", "C": "/tmp/seed/out2", "D": "/tmp/seed/out2"}
+LOGS = ["/tmp/seed/confirm_batch1.log", "/tmp/seed/confirm_batch2.log", "/tmp/seed/confirm_round2.log"]
 MISSED = {"C01-B": "vectorised gather: needed the column-wise symbolic evaluation of the coordinate maps (C01.b)",
           "C10-B": "needed C10.f (results not shared with the object) and getattr aliasing in the effect engine",
           "C04-A": "needed C04.g (matrix version / fresh solver)", "C04-B": "needed C04.f (snapshot refreshed per iteration)",
@@ -13,7 +13,25 @@ MISSED = {"C01-B": "vectorised gather: needed the column-wise symbolic evaluatio
           "C14-A": "first run ended in ANALYSIS-ERROR (loop target shape); rule made total", "C14-B": "first run ended in ANALYSIS-ERROR (return not a bare accumulator); rule now evaluates the returned form",
           "C15-B": "first run ended in ANALYSIS-ERROR; the shared-state lint now runs as a precondition and checks in-place modification of memoised objects",
           "C18-A": "needed the pass-through obligation in C18.a", "C18-B": "needed C18.e (verbatim save/load)",
-          "C20-B": "first run ended in ANALYSIS-ERROR; memo key coverage now requires injective use of the argument"}
+          "C20-B": "first run ended in ANALYSIS-ERROR; memo key coverage now requires injective use of the argument",
+          # round 2
+          "C01-D": "reported by C20.b only; the layout-helper cross-check is now a sub-rule of C01 (C01.a/C20.b)",
+          "C02-C": "reported by C01.b only; now a sub-rule of C02 (C02.b/C01.b)",
+          "C03-C": "needed C03.e (array weights broadcast over voxels)", "C03-D": "needed C03.d (constructors do not modify their arguments)",
+          "C04-C": "reported by C06.c only; now a sub-rule of C04 (C04.d/C06.c)", "C04-D": "needed C04.h (tolerance routing)",
+          "C05-C": "reported by C06.c only; now a sub-rule of C05 (C05.b/C06.c)",
+          "C06-C": "needed the scalar/vector/tensor arms in C06.d", "C06-D": "needed the __call__ obligation in C06.e",
+          "C08-C": "needed C08.e (cg default atol)", "C08-D": "reported by C04.g only; now a sub-rule of C08 (C08.d/C04.g)",
+          "C09-C": "needed C09.f (_src/_dst role agreement)", "C10-C": "reported by C02.d only; now a sub-rule of C10 (C10.c/C02.d)",
+          "C11-C": "first run ended in ANALYSIS-ERROR (parity test shape); C11.d made total",
+          "C12-C": "needed the must-store obligation in C12.b", "C12-D": "needed the __call__ obligation in C12.a",
+          "C13-C": "needed the same-definitions obligation in C13.c", "C13-D": "reported by C18.a only; now a sub-rule of C13 (C13.d/C18.a)",
+          "C14-C": "needed C14.g (argument-count idioms)", "C14-D": "needed C14.h (full kernel matrix)",
+          "C15-C": "first run ended in ANALYSIS-ERROR (np.full not modelled by the folder)",
+          "C15-D": "the edit is in face_to_cell (same edit as C04-C / C05-C), outside the statement of C15 proper; reported through the shared sub-rule C15.c/C06.c",
+          "C16-C": "needed C16.g (update_params per parameter)", "C18-C": "needed the lossless-decode-flag obligation in C18.b",
+          "C18-D": "needed the config-method branch of C18.e", "C19-C": "first run ended in ANALYSIS-ERROR; an altered selection is now a finding of C02.a",
+          "C20-C": "needed C20.d (index kinds)", "C20-D": "C01/C02 ended in ANALYSIS-ERROR (starred zip, np.where not modelled), reported by C09 only; folder extended and C01.b shared into C20"}
 conf = {}
 for lg in LOGS:
     if os.path.exists(lg):
@@ -25,14 +43,14 @@ done = []
 for (pid, x), line in sorted(conf.items()):
     if "demo_clean=0 demo_patched=1 compile=0 tests=[123 passed" not in line:
         print("NOT CONFIRMED", pid, x, line); continue
-    src = f"{OUT}/{pid}"
+    src = f"{OUTS[x]}/{pid}"
     dst = f"/verif/seeded/{pid}-{x}"
     os.makedirs(dst, exist_ok=True)
     shutil.copy(f"{src}/patch_{x}.diff", f"{dst}/patch.diff")
     shutil.copy(f"{src}/demo_{x}.py", f"{dst}/demo.py")
     notes = open(f"{src}/notes.md").read()
     secs = re.split(r"(?m)^## ", notes)
-    sec = next((s for s in secs[1:] if re.match(rf"(Change |Patch |Seed )?{x}\b", s)), None) or (secs[1 + "AB".index(x)] if len(secs) > 2 else notes)
+    sec = next((s for s in secs[1:] if re.match(rf"(Change |Patch |Seed )?{x}\b", s)), None) or (secs[1 + "ABCD".index(x) % 2] if len(secs) > 2 else notes)
     open(f"{dst}/notes.md", "w").write("## " + sec)
     r = subprocess.run(["/verif/tools/try_patch.py", f"{dst}/patch.diff", pid], capture_output=True, text=True)
     first = next((l.strip() for l in r.stdout.splitlines() if "FINDING" in l), "")
@@ -49,3 +67,20 @@ for (pid, x), line in sorted(conf.items()):
     done.append((f"{pid}-{x}", fired, meta["caught_by"]))
 for d in done:
     print(*d)
+
+# index
+rows = []
+for d in sorted(os.listdir("/verif/seeded")):
+    mp = f"/verif/seeded/{d}/meta.json"
+    if os.path.exists(mp):
+        mt = json.load(open(mp))
+        rows.append(mt)
+with open("/verif/seeded/INDEX.md", "w") as fh:
+    fh.write("# Seeded property-breaking changes (generated by tools/build_seeded.py)\n\n")
+    fh.write("Every change was confirmed in a scratch worktree: demo passes on HEAD, fails with the patch, 123 unit tests pass with the patch.\n\n")
+    fh.write("| id | breaks | reported by | first run |\n|---|---|---|---|\n")
+    for mt in rows:
+        fh.write(f"| {mt['id']} | {mt['breaks'][:110].replace('|', '/')} | {mt['caught_by'] if mt['caught'] else 'NOT REPORTED'} | {'reported' if not mt.get('initially_missed') else 'missed: ' + mt['initially_missed']} |\n")
+    n = len(rows)
+    fh.write(f"\n{n} changes; {sum(1 for r in rows if r['caught'])} reported by the check of their property on the current rules; {sum(1 for r in rows if not r.get('initially_missed'))} were reported by the rules as they stood when the change was written.\n")
+print(len(rows), "entries;", sum(1 for r in rows if r["caught"]), "caught")
